@@ -12,7 +12,7 @@ from symx.scalar import SymReal
 
 from . import toy
 from .C06 import _F, _pay, _setup, _weights_ok
-from .common import facts, far, model_angle, simp, tensor_of
+from .common import facts, far, model_angle, simp, tensor_of, term_of
 
 PID = "C07"
 LEVEL = "model_checking"
@@ -57,7 +57,7 @@ def bounds(tier):
 
 def jobs(tier, seed):
     out = [("grad", "default"), ("grad", "extended"), ("grad", "constraint"), ("cfit", False, 2, 1), ("cfit", True, 2, 1), ("cfit", False, 1, 2), ("cfit", True, 1, 2), ("cfit", False, 1, 1, True), ("cfit", True, 1, 1, True), ("combine",),
-           ("bound", "two"), ("bound", "lower"), ("bound", "upper"), ("bound", "custom"), ("fixed",)]
+           ("bound", "two"), ("bound", "lower"), ("bound", "upper"), ("bound", "custom"), ("fixed",), ("sumvar", 1), ("sumvar", 2), ("sumvar", 3)]
     for kind in ("default", "extended", "constraint"):
         for cfg in SMALL:
             out.append(("hess", kind, cfg))
@@ -429,6 +429,52 @@ def job_bound(ss, kind):
                      describe="trans_fcn_grad around the real FCN.nll_grad")
     finally:
         del var.float
+
+
+def job_sumvar(ss, nf):
+    """variable.SumVar (the normalisation factors of the custom likelihood models, model/custom.py): the local
+    second-order model returned by SumVar.__call__ has the value, gradient and Hessian of every factor"""
+    import tensorflow as tf
+    from symx import symtf
+    from tf_pwa.variable import SumVar
+
+    symtf.STATE.var_leaves = True
+    symtf.reset_state()
+    names = ["a", "b"]
+    th = {n: S.real("th_" + n) for n in names}
+    var = []
+    for n in names:
+        v = tf.Variable(1.0, dtype=tf.float64)
+        v.assign(tensor_of(th[n]))
+        var.append(v)
+
+    def fun():
+        args = [term_of(v.read_value().arr.reshape(-1)[0] if hasattr(v, "read_value") else v.arr.reshape(-1)[0]) for v in var]
+        return [tensor_of(SymReal(T.uf("N%d" % k, *args))) for k in range(nf)]
+
+    sv = SumVar.from_call_with_hess(fun, var)
+    # TensorFlow's tapes only differentiate through operations recorded while they are active: the gradient and Hessian
+    # stored in the SumVar were computed before the tapes below were opened and are constants for them (the substitute's
+    # tapes differentiate through everything a value depends on, so this is made explicit here)
+    sv.grad = tf.nest.map_structure(tf.stop_gradient, sv.grad)
+    sv.hess = tf.nest.map_structure(tf.stop_gradient, sv.hess)
+    with tf.GradientTape(persistent=True) as t0:
+        with tf.GradientTape(persistent=True) as t1:
+            out = sv()
+        g = [t1.gradient(o, var, unconnected_gradients="zero") for o in out]
+    H = [[t0.gradient(gi, var, unconnected_gradients="zero") for gi in gk] for gk in g]
+    F = facts()
+    res = lambda x: symtf.resolve_bindings(T.strip_stopgrad(term_of(x.arr.reshape(-1)[0] if hasattr(x, "arr") else x)))
+    leaf = lambda k, *idx: T.uf("N%d" % k + "".join(",%d" % i for i in sorted(idx)), *[th[n].t for n in names])
+    pay = lambda m: dict(kind="sumvar", nf=nf, model={k_: float(v_) for k_, v_ in m.items() if not k_.startswith("sqrt#")})
+    for k in range(nf):
+        ss.prove("sumvar.value[nf=%d,%d]" % (nf, k), F, far(res(out[k]), leaf(k), 0), key="sumvar.value", payload=pay, ackermann=False, timeout=60, describe="SumVar()[k] has the value of factor k")
+        for i in range(2):
+            ss.prove("sumvar.gradient[nf=%d,%d,%d]" % (nf, k, i), F, far(res(g[k][i]), leaf(k, i), 0), key="sumvar.gradient", payload=pay, ackermann=False, timeout=60, describe="... and its gradient")
+            for j in range(2):
+                ss.prove("sumvar.hessian[nf=%d,%d,%d,%d]" % (nf, k, i, j), F, far(res(H[k][i][j]), leaf(k, i, j), 0), key="sumvar.hessian", payload=pay, ackermann=False, timeout=60,
+                         describe="... and its Hessian (the second-order term of factor k only)")
+    ss.mutant("sumvar.mutant[nf=%d]" % nf, F, far(res(H[0][0][0]), T.mul(T.const(2, "R"), leaf(0, 0, 0)), 0))
 
 
 def job_fixed(ss):
